@@ -17,6 +17,10 @@ var textAlphabet = [][]byte{
 	[]byte("\uFFFD"), []byte("\u200b"), []byte("\u00a0"), []byte("\ufeff"),
 	// carriage returns next to line feeds
 	[]byte("\r"), []byte("\r\n"), []byte("\n\r"),
+	// control characters (DEL is the one quoting escapes that is not below 0x20)
+	// (no NUL: as an element of a byte slice it is a zero, whose rendering
+	// under a zero precision is empty - shape, for C02)
+	[]byte("\x7f"), []byte("\x1b"),
 }
 
 // genText draws a valid-UTF-8 payload over the text alphabet, with markers
@@ -302,6 +306,10 @@ func genHistory(rt *rapid.T, cfg *opConfig, maxLen int) []*Op {
 
 // fragments: well-formed redactable pieces as the library produces them.
 var fragments = []string{
+	// (well-formed: no marker; they end in a piece of one. No fragment starts
+	// with continuation bytes: two raw writes back to back are one raw text,
+	// which the caller keeps well-formed)
+	"ab\xe2", "a\xe2\x80",
 	"", "safe", startS + "u" + endS, "a " + startS + "u" + endS + " b", startS + "x" + endS + "\n" + startS + "y" + endS,
 	"?", startS + "?" + endS, "\n", startS + "×" + endS, startS + "u" + endS + startS + "v" + endS, "é" + startS + "世" + endS,
 }
